@@ -768,6 +768,57 @@ fn directed(ctx: &mut Ctx) {
         exec(ctx, &mut s, &mut last, o);
     }
     ctx.shape("d:check".into());
+    wide_adds(ctx);
+}
+
+/// `add` over the whole range of `u32` variable indices (no solver call, hence no allocation
+/// proportional to `num_vars`): pairs of indices that differ by 2^31 or more, indices with the top
+/// bit set, u32::MAX.  The merge in `Modulo2Equation::add` compares indices; a comparison through
+/// a signed difference or a narrower type only shows here.
+fn wide_adds(ctx: &mut Ctx) {
+    const H: u64 = 1 << 31;
+    let pool: Vec<u64> = vec![
+        0, 1, 2, 3, 4, 5, H - 2, H - 1, H, H + 1, H + 5, H + (1 << 30), (1 << 30), (1 << 30) + 7, (1u64 << 32) - 2, (1u64 << 32) - 1,
+        3 * (1 << 30), 3 * (1 << 30) + 1,
+    ];
+    let rounds = if ctx.tier == Tier::Quick { 40 } else { 400 };
+    for r in 0..rounds {
+        ctx.case();
+        let mut s = fresh();
+        let mut last = Last { sol: None };
+        let w = *ctx.rng.pick(&[8u32, 16, 32, 64, 128]);
+        exec(ctx, &mut s, &mut last, &format!("system 4294967295 {}", w));
+        let neq = 2 + ctx.rng.usize_below(3);
+        for _ in 0..neq {
+            let k = 1 + ctx.rng.usize_below(5);
+            let mut vs: Vec<u64> = (0..k).map(|_| *ctx.rng.pick(&pool)).collect();
+            if r % 3 == 0 {
+                // a shared leading variable, as elimination produces
+                vs.push(0);
+            }
+            vs.sort();
+            vs.dedup();
+            let c = ctx.rng.below(256);
+            exec(ctx, &mut s, &mut last, &format!("eq {} {}", fmt_list(vs.iter()), c));
+        }
+        for i in 0..neq {
+            for j in 0..neq {
+                exec(ctx, &mut s, &mut last, &format!("add {} {}", i, j));
+            }
+        }
+        ctx.shape(format!("d:wide-add:{}", w));
+    }
+    // the systems of a far-apart elimination step, spelled out
+    ctx.case();
+    let mut s = fresh();
+    let mut last = Last { sol: None };
+    for o in [
+        "system 4294967295 8", "eq [0,2147483653] 165", "eq [0,3,4] 0", "eq [3,2147483653] 0", "add 0 1", "add 1 0", "add 0 2",
+        "add 2 0", "add 1 2", "eq [2147483647,2147483648] 1", "eq [0,4294967294] 2", "add 3 4", "add 4 3", "add 3 0",
+    ] {
+        exec(ctx, &mut s, &mut last, o);
+    }
+    ctx.shape("d:wide-add:spelled".into());
 }
 
 pub fn run(ctx: &mut Ctx) {
